@@ -8,7 +8,7 @@
    Loops, conditionals, routines, zones and matrix blocks are outside this theorem (they are
    covered by the oracle and correspondence runs). *)
 From Coq Require Import ZArith String List Bool Lia.
-From Bardolph Require Import Time.TimePattern Gen.Codes Lang.Value Lang.Instr Lang.Loader Lang.World Lang.Units0 Lang.Regs Lang.Devices Lang.Scope
+From Bardolph Require Import Time.TimeCore Gen.Codes Lang.Value Lang.Instr Lang.Loader Lang.World Lang.Units0 Lang.Regs Lang.Devices Lang.Scope
   Lang.Machine Lang.Syntax Lang.Sem Lang.CodeGen Lang.ExprCompile.
 Open Scope string_scope.
 Open Scope list_scope.
